@@ -1,9 +1,9 @@
 /-
 C01/C02/C05/C14/C15 — whole documents: enums, tables (columns in any form that is read back, possibly under a comment),
-standalone references between their columns, sticky notes — rendered and read back to the same database
+standalone references between their columns, table groups over these tables, sticky notes — rendered and read back to the same database
 (`document_roundtrip`, and its instance for columns with settings `flags_document_roundtrip_partial`).
 -/
-import PyDBMLProofs.Props.C02DocMore
+import PyDBMLProofs.Props.C02Group
 import PyDBMLProofs.Props.C02FlagsTables
 namespace PyDBML
 namespace C02
@@ -16,14 +16,21 @@ structure DocSpec (σ : Type) where
   enums : List ESpec := []
   tables : List (FTab σ)
   refs : List RSpec := []
+  /-- table groups: a name and the POSITIONS of the member tables -/
+  groups : List (Str × List Nat) := []
   sticky : List Sticky := []
 
 def mkEnum (e : ESpec) : Enum := plainEnum e.1 e.2
 
+def mkGroup (g : Str × List Nat) : Group := { name := g.1, items := g.2 }
+
+/-- the names a group's members are written with -/
+def ColForm.gnames (F : ColForm σ) (ts : List (FTab σ)) (g : Str × List Nat) : List Str := g.2.map (F.tnameAt ts)
+
 /-- the database such a document stands for -/
 def DocSpec.db (F : ColForm σ) (ap : Bool) (d : DocSpec σ) : Db :=
-  { enums := d.enums.map mkEnum, tables := d.tables.map F.mkTable, refs := d.refs.map mkRef, sticky := d.sticky,
-    allowProps := ap }
+  { enums := d.enums.map mkEnum, tables := d.tables.map F.mkTable, refs := d.refs.map mkRef,
+    groups := d.groups.map mkGroup, sticky := d.sticky, allowProps := ap }
 
 structure DocOK (F : ColForm σ) (ap : Bool) (d : DocSpec σ) : Prop where
   enums : ∀ e ∈ d.enums, ESpecOK e
@@ -37,6 +44,9 @@ structure DocOK (F : ColForm σ) (ap : Bool) (d : DocSpec σ) : Prop where
   noShadow : ∀ t ∈ d.tables, F.noShadow (d.enums.map mkEnum) t
   refsIn : ∀ r ∈ d.refs, F.RSpecIn d.tables r
   refsNodup : d.refs.Nodup
+  /-- group names are quoted names, pairwise different; members are tables of the document, none listed twice -/
+  groups : ∀ g ∈ d.groups, NameOK g.1 ∧ g.2.Nodup ∧ ∀ i ∈ g.2, i < d.tables.length
+  groupNames : d.groups.Pairwise (fun a b => a.1 ≠ b.1)
   sticky : ∀ s ∈ d.sticky, StickyOK s
 
 /-! ### the element forms of the document -/
@@ -68,20 +78,33 @@ theorem rtext_ok (F : ColForm σ) (ap : Bool) (d : DocSpec σ) (h : DocOK F ap d
   · simpa [ColForm.rtext, ColForm.tnameAt, h2] using (h.tables tb hmb).1
   · simpa [ColForm.rtext, ColForm.cnameAt, h2, hcb] using h.colNames tb hmb _ (List.getElem_mem hc2)
 
+theorem gnames_ok (F : ColForm σ) (ap : Bool) (d : DocSpec σ) (h : DocOK F ap d) :
+    ∀ g ∈ d.groups, NameOK g.1 ∧ ∀ n ∈ F.gnames d.tables g, NameOK n := by
+  intro g hg
+  refine ⟨(h.groups g hg).1, ?_⟩
+  intro n hn
+  obtain ⟨i, hi, rfl⟩ := List.mem_map.mp hn
+  have hl := (h.groups g hg).2.2 i hi
+  have := h.tables d.tables[i] (List.getElem_mem hl)
+  simpa [ColForm.tnameAt, List.getElem?_eq_getElem hl] using this.1
+
 def DocSpec.forms (F : ColForm σ) (ap : Bool) (d : DocSpec σ) (h : DocOK F ap d) : List (EForm ap) :=
   d.enums.pmap (fun e he => enumE ap e he) h.enums
   ++ d.tables.pmap (fun t ht => F.tableE ap t ht) h.tables
   ++ (d.refs.map (F.rtext d.tables)).pmap (fun r hr => refE ap r hr) (rtext_ok F ap d h)
+  ++ d.groups.pmap (fun g hg => groupE ap g.1 (F.gnames d.tables g) hg.1 hg.2) (gnames_ok F ap d h)
   ++ d.sticky.pmap (fun s hs => stickyE ap s hs) h.sticky
 
 /-- the blueprints the document rule reads -/
 def DocSpec.elems (F : ColForm σ) (d : DocSpec σ) : List Bp.Elem :=
   d.enums.map mkEnumElem ++ d.tables.map F.mkElem ++ (d.refs.map (F.rtext d.tables)).map mkRefElem
+    ++ d.groups.map (fun g => Bp.Elem.group (groupBpOf g.1 (F.gnames d.tables g)))
     ++ d.sticky.map mkStickyElem
 
 /-- the texts of the elements, in the order the renderer writes them -/
 def DocSpec.texts (F : ColForm σ) (d : DocSpec σ) : List Str :=
   d.enums.map (fun e => enumText e.1 e.2) ++ d.tables.map F.tabText ++ (d.refs.map (F.rtext d.tables)).map refText
+    ++ d.groups.map (fun g => groupText g.1 (F.gnames d.tables g))
     ++ d.sticky.map (fun s => stickyText s.name s.text)
 
 theorem DocSpec.forms_elems (F : ColForm σ) (ap : Bool) (d : DocSpec σ) (h : DocOK F ap d) :
@@ -90,6 +113,8 @@ theorem DocSpec.forms_elems (F : ColForm σ) (ap : Bool) (d : DocSpec σ) (h : D
   rw [map_pmap_const (fun e he => enumE ap e he) (·.elem) mkEnumElem (fun _ _ => rfl),
     map_pmap_const (fun t ht => F.tableE ap t ht) (·.elem) F.mkElem (fun _ _ => rfl),
     map_pmap_const (fun r hr => refE ap r hr) (·.elem) mkRefElem (fun _ _ => rfl),
+    map_pmap_const (fun g hg => groupE ap g.1 (F.gnames d.tables g) hg.1 hg.2) (·.elem)
+      (fun g => Bp.Elem.group (groupBpOf g.1 (F.gnames d.tables g))) (fun _ _ => rfl),
     map_pmap_const (fun s hs => stickyE ap s hs) (·.elem) mkStickyElem (fun _ _ => rfl)]
 
 theorem DocSpec.forms_texts (F : ColForm σ) (ap : Bool) (d : DocSpec σ) (h : DocOK F ap d) :
@@ -98,6 +123,8 @@ theorem DocSpec.forms_texts (F : ColForm σ) (ap : Bool) (d : DocSpec σ) (h : D
   rw [map_pmap_const (fun e he => enumE ap e he) (·.text) (fun e => enumText e.1 e.2) (fun e he => enumE_text ap e he),
     map_pmap_const (fun t ht => F.tableE ap t ht) (·.text) F.tabText (fun t ht => F.tableE_text ap t ht),
     map_pmap_const (fun r hr => refE ap r hr) (·.text) refText (fun r hr => refE_text ap r hr),
+    map_pmap_const (fun g hg => groupE ap g.1 (F.gnames d.tables g) hg.1 hg.2) (·.text)
+      (fun g => groupText g.1 (F.gnames d.tables g)) (fun g hg => groupE_text ap g.1 _ hg.1 hg.2),
     map_pmap_const (fun s hs => stickyE ap s hs) (·.text) (fun s => stickyText s.name s.text)
       (fun s hs => stickyE_text ap s hs)]
 
@@ -145,6 +172,81 @@ theorem foldlM_enums : ∀ (todo done : List ESpec), (done ++ todo).Pairwise (fu
     have := ih (done ++ [e]) (by simpa using hp)
     simpa using this
 
+theorem splitDot_no_dot' (t : Str) (h : '.' ∉ t) : splitDot t = [t] := by
+  induction t with
+  | nil => rfl
+  | cons c r ih =>
+    have hc : c ≠ '.' := fun e => h (by simp [e])
+    have hr : '.' ∉ r := fun e => h (by simp [e])
+    rw [splitDot, ih hr]
+    simp [hc]
+
+theorem groupItemName_plain (tn : Str) (h : '.' ∉ tn) : groupItemName tn = (lit "public", tn) := by
+  unfold groupItemName
+  rw [splitDot_no_dot' tn h]
+
+theorem foldlM_groupStep (F : ColForm σ) (ts : List (FTab σ)) (hr : F.Resolvable ts) :
+    ∀ (todo done : List Nat), (done ++ todo).Nodup → (∀ i ∈ todo, i < ts.length) →
+    (todo.map (F.tnameAt ts)).foldlM (groupStep (ts.map F.mkTable)) done = .ok (done ++ todo) := by
+  intro todo
+  induction todo with
+  | nil => intro done _ _; simp [pure, Except.pure]
+  | cons i r ih =>
+    intro done hnd hlt
+    have hi : i < ts.length := hlt i (by simp)
+    have hget : ts[i]? = some ts[i] := List.getElem?_eq_getElem hi
+    have hname : F.tnameAt ts i = ts[i].name := by simp [ColForm.tnameAt, hget]
+    have hnodot : '.' ∉ ts[i].name := hr.nodot _ (List.getElem_mem hi)
+    rw [List.map_cons, List.foldlM_cons]
+    have hstep : groupStep (ts.map F.mkTable) done (F.tnameAt ts i) = .ok (done ++ [i]) := by
+      unfold groupStep
+      rw [hname, groupItemName_plain _ hnodot]
+      simp only [F.locateTable_ok ts hr i ts[i] hget, bind, Except.bind]
+      have hni : i ∉ done := by
+        intro hm
+        have := List.nodup_append.mp hnd
+        exact this.2.2 i hm i (by simp) rfl
+      simp [hni, pure, Except.pure]
+    rw [hstep]
+    simp only [bind, Except.bind]
+    have := ih (done ++ [i]) (by simpa using hnd) (fun q hq => hlt q (by simp [hq]))
+    simpa using this
+
+theorem foldlM_groups (F : ColForm σ) (ts : List (FTab σ)) (hr : F.Resolvable ts) (db0 : Db)
+    (hdb : db0.tables = ts.map F.mkTable) :
+    ∀ (todo done : List (Str × List Nat)), (done ++ todo).Pairwise (fun a b => a.1 ≠ b.1) →
+    (∀ g ∈ todo, g.2.Nodup ∧ ∀ i ∈ g.2, i < ts.length) →
+    (todo.map fun g => groupBpOf g.1 (F.gnames ts g)).foldlM (groupAddStep db0) (done.map mkGroup)
+      = .ok ((done ++ todo).map mkGroup) := by
+  intro todo
+  induction todo with
+  | nil => intro done _ _; simp [pure, Except.pure]
+  | cons g r ih =>
+    intro done hp hok
+    have hd : ∀ u ∈ done, u.1 ≠ g.1 := by
+      intro u hu
+      have := List.pairwise_append.mp hp
+      exact this.2.2 u hu g (by simp)
+    rw [List.map_cons, List.foldlM_cons]
+    have hbuild : buildGroup db0 (groupBpOf g.1 (F.gnames ts g)) = .ok (mkGroup g) := by
+      unfold buildGroup
+      have := foldlM_groupStep F ts hr g.2 [] (by simpa using (hok g (by simp)).1) (hok g (by simp)).2
+      simp only [List.nil_append] at this
+      simp only [groupBpOf, ColForm.gnames, hdb, this, bind, Except.bind, pure, Except.pure, mkGroup, Option.map_none]
+    have hstep : groupAddStep db0 (done.map mkGroup) (groupBpOf g.1 (F.gnames ts g)) = .ok ((done ++ [g]).map mkGroup) := by
+      unfold groupAddStep
+      simp only [hbuild, bind, Except.bind]
+      have hno : (done.map mkGroup).any (fun x => x.name == (mkGroup g).name) = false := by
+        rw [List.any_eq_false]
+        intro x hx
+        obtain ⟨u, hu, rfl⟩ := List.mem_map.mp hx
+        simpa [mkGroup] using hd u hu
+      simp [hno, pure, Except.pure]
+    rw [hstep]
+    simp only [bind, Except.bind]
+    have := ih (done ++ [g]) (by simpa using hp) (fun q hq => hok q (by simp [hq]))
+    simpa using this
+
 theorem DocSpec.build (F : ColForm σ) (ap : Bool) (d : DocSpec σ) (h : DocOK F ap d) :
     buildDatabase ap (d.elems F) = .ok (d.db F ap) := by
   have hE : enumBps (d.elems F) = d.enums.map fun e => plainEnumBp e.1 e.2 := by
@@ -153,7 +255,7 @@ theorem DocSpec.build (F : ColForm σ) (ap : Bool) (d : DocSpec σ) (h : DocOK F
   have hT : tableBps (d.elems F) = d.tables.map fun t => F.tableBpC t.name t.cols t.comment := by
     simp [tableBps, DocSpec.elems, mkEnumElem, ColForm.mkElem, mkRefElem, mkStickyElem, List.filterMap_append,
       List.filterMap_map, Function.comp_def]
-  have hG : groupBps (d.elems F) = [] := by
+  have hG : groupBps (d.elems F) = d.groups.map fun g => groupBpOf g.1 (F.gnames d.tables g) := by
     simp [groupBps, DocSpec.elems, mkEnumElem, ColForm.mkElem, mkRefElem, mkStickyElem, List.filterMap_append,
       List.filterMap_map, Function.comp_def]
   have hS : stickyBps (d.elems F) = d.sticky.map fun s => ({ name := s.name, text := s.text } : Bp.StickyBp) := by
@@ -174,7 +276,9 @@ theorem DocSpec.build (F : ColForm σ) (ap : Bool) (d : DocSpec σ) (h : DocOK F
       simp [F.norefs]
     have h4 : refBlueprints (d.sticky.map mkStickyElem) = [] := by
       simp [refBlueprints, mkStickyElem, List.flatMap_map]
-    simp only [DocSpec.elems, refBlueprints_append, h1, h2, h4, refBlueprints_refElems]
+    have h5 : refBlueprints (d.groups.map fun g => Bp.Elem.group (groupBpOf g.1 (F.gnames d.tables g))) = [] := by
+      simp [refBlueprints, List.flatMap_map]
+    simp only [DocSpec.elems, refBlueprints_append, h1, h2, h4, h5, refBlueprints_refElems]
     simp [List.map_map, Function.comp_def]
   have hFe := foldlM_enums d.enums [] (by simpa using h.enumNames)
   simp only [List.map_nil, List.nil_append] at hFe
@@ -189,12 +293,16 @@ theorem DocSpec.build (F : ColForm σ) (ap : Bool) (d : DocSpec σ) (h : DocOK F
     have := (h.sticky s hs).2.2.2.2
     cases s
     simp_all [buildSticky]
+  have hFg := foldlM_groups F d.tables h.resolvable
+    { tables := d.tables.map F.mkTable, enums := d.enums.map mkEnum, allowProps := ap } rfl d.groups []
+    (by simpa using h.groupNames) (fun g hg => (h.groups g hg).2)
+  simp only [List.map_nil, List.nil_append] at hFg
   have hRf := F.foldlM_refs d.tables h.resolvable
-    { tables := d.tables.map F.mkTable, enums := d.enums.map mkEnum, allowProps := ap, groups := [], sticky := d.sticky,
-      project := none } rfl d.refs [] (by simpa using h.refsIn) (by simpa using h.refsNodup)
+    { tables := d.tables.map F.mkTable, enums := d.enums.map mkEnum, allowProps := ap, groups := d.groups.map mkGroup,
+      sticky := d.sticky, project := none } rfl d.refs [] (by simpa using h.refsIn) (by simpa using h.refsNodup)
   simp only [List.map_nil, List.nil_append] at hRf
   unfold buildDatabase
-  simp only [hE, hT, hG, hS, hP, hR, hFe, hFt, hst, List.foldlM_nil, pure, Except.pure, bind, Except.bind, buildProject]
+  simp only [hE, hT, hG, hS, hP, hR, hFe, hFt, hFg, hst, List.foldlM_nil, pure, Except.pure, bind, Except.bind, buildProject]
   rw [hRf]
   rfl
 
@@ -249,6 +357,35 @@ theorem ColForm.renderRef_ok' (F : ColForm σ) (db : Db) (ts : List (FTab σ)) (
   simp [refText, refTextP, sideText, ColForm.rtext, ColForm.tnameAt, ColForm.cnameAt, h1, h2, hca, hcb, truthy, Dbml.optComment,
     qualName, ColForm.mkTable, ColForm.table, lit]
 
+theorem memberLines_flatten (F : ColForm σ) (ts : List (FTab σ)) (is : List Nat) :
+    (is.map fun i => lit "    " ++ ('"' :: F.tnameAt ts i ++ ['"']) ++ ['\n']).flatten = memberLines (is.map (F.tnameAt ts)) := by
+  induction is with
+  | nil => rfl
+  | cons i r ih =>
+    rw [List.map_cons, List.flatten_cons, ih]
+    simp [memberLines, lit]
+
+theorem renderGroup_ok (F : ColForm σ) (ap : Bool) (d : DocSpec σ) (g : Str × List Nat) (hg : NameOK g.1)
+    (hlt : ∀ i ∈ g.2, i < d.tables.length) :
+    Dbml.renderGroup (d.db F ap) (mkGroup g) = .ok (groupText g.1 (F.gnames d.tables g)) := by
+  have hitems : (mkGroup g).items.mapM (fun i => do
+      let t ← getD? (d.db F ap).tables i "group item position"
+      pure (lit "    " ++ qualName t.schema t.name ++ ['\n']))
+      = .ok (g.2.map fun i => lit "    " ++ ('"' :: F.tnameAt d.tables i ++ ['"']) ++ ['\n']) := by
+    simp only [mkGroup]
+    apply mapM_ok_map_mem
+    intro i hi
+    have hl := hlt i hi
+    have hget : d.tables[i]? = some d.tables[i] := List.getElem?_eq_getElem hl
+    simp [getD?, DocSpec.db, List.getElem?_map, hget, ColForm.mkTable, ColForm.table, qualName, ColForm.tnameAt, bind,
+      Except.bind, pure, Except.pure, lit]
+  unfold Dbml.renderGroup
+  rw [hitems]
+  have hq : doublequoteString (mkGroup g).name = .ok ('"' :: g.1 ++ ['"']) := doublequote_nameOK g.1 hg
+  rw [hq]
+  simp only [Dbml.liftPy, bind, Except.bind, pure, Except.pure, memberLines_flatten]
+  simp [mkGroup, groupText, ColForm.gnames, Dbml.optComment, truthy, lit]
+
 theorem DocSpec.render (F : ColForm σ) (ap : Bool) (d : DocSpec σ) (h : DocOK F ap d) :
     Dbml.renderDb (d.db F ap) = .ok (joinWith (lit "\n\n") (d.texts F)) := by
   have hni : ∀ r ∈ (d.db F ap).refs, r.inline = false := by
@@ -290,13 +427,30 @@ theorem DocSpec.render (F : ColForm σ) (ap : Bool) (d : DocSpec σ) (h : DocOK 
         rw [this]
         rfl
     exact this d.refs h.refsIn
+  have hgroups : (d.db F ap).groups.mapM (Dbml.renderGroup (d.db F ap))
+      = .ok (d.groups.map fun g => groupText g.1 (F.gnames d.tables g)) := by
+    simp only [DocSpec.db, List.mapM_map]
+    have : ∀ l : List (Str × List Nat), (∀ g ∈ l, NameOK g.1 ∧ ∀ i ∈ g.2, i < d.tables.length) →
+        l.mapM (Dbml.renderGroup (d.db F ap) ∘ mkGroup) = .ok (l.map fun g => groupText g.1 (F.gnames d.tables g)) := by
+      intro l
+      induction l with
+      | nil => intro _; rfl
+      | cons g r ih =>
+        intro hg
+        rw [List.mapM_cons]
+        have h1 := renderGroup_ok F ap d g (hg g (by simp)).1 (hg g (by simp)).2
+        simp only [Function.comp, h1, bind, Except.bind]
+        have := ih (fun q hq => hg q (by simp [hq]))
+        rw [this]
+        rfl
+    exact this d.groups (fun g hg => ⟨(h.groups g hg).1, (h.groups g hg).2.2⟩)
   have hsticky : (d.db F ap).sticky.map Dbml.renderSticky = d.sticky.map fun s => stickyText s.name s.text := by
     simp only [DocSpec.db]
     apply List.map_congr_left
     intro s hs
     exact renderSticky_plain s (h.sticky s hs).2.2.1
   unfold Dbml.renderDb Dbml.renderProjectList
-  simp only [bind, Except.bind, htabs, hrefs, henums, hsticky]
+  simp only [bind, Except.bind, htabs, hrefs, henums, hsticky, hgroups]
   simp [DocSpec.db, DocSpec.texts, pure, Except.pure]
 
 /-- **the round trip of whole documents.**  A database holding any number of enums (schema public, pairwise different
@@ -369,6 +523,7 @@ abbrev FlagDoc := DocSpec FCol
       integer default, a one-line note and (properties switch on) any number of arbitrary properties, whose type text
       names no declared enum,
     * any number of pairwise different standalone single-column references between columns of these tables,
+    * any number of table groups with pairwise different quoted names over these tables (no table twice in a group),
     * any number of sticky notes with a bare name and a one-line text,
     is rendered to DBML and parsed back to exactly the same database - every element once, in its section, in order; the
     comments on the same tables; the references linked, by table and column name, to the very columns they were written
@@ -385,6 +540,8 @@ theorem flags_document_roundtrip_partial (ap : Bool) (d : FlagDoc)
     (hin : ∀ r ∈ d.refs, ∃ ta tb, d.tables[r.t1]? = some ta ∧ d.tables[r.t2]? = some tb ∧ r.c1 < ta.cols.length
       ∧ r.c2 < tb.cols.length)
     (hnd : d.refs.Nodup)
+    (hgroups : ∀ g ∈ d.groups, NameOK g.1 ∧ g.2.Nodup ∧ ∀ i ∈ g.2, i < d.tables.length)
+    (hgnames : d.groups.Pairwise (fun a b => a.1 ≠ b.1))
     (hsticky : ∀ s ∈ d.sticky, s.name ≠ [] ∧ s.name.all isNameChar = true ∧ Plain s.text ∧ hasTriple s.text = false
       ∧ norm s.text = s.text) :
     ∃ text, Dbml.renderDb (d.db flagForm ap) = .ok text ∧ Build.parse ap text = .ok (d.db flagForm ap) :=
@@ -396,7 +553,7 @@ theorem flags_document_roundtrip_partial (ap : Bool) (d : FlagDoc)
         intro e he
         obtain ⟨e0, he0, rfl⟩ := List.mem_map.mp he
         exact hshadow t ht s hs e0 he0),
-      refsIn := hin, refsNodup := hnd, sticky := hsticky }
+      refsIn := hin, refsNodup := hnd, groups := hgroups, groupNames := hgnames, sticky := hsticky }
 
 /-- the rendered text of a small document of every covered kind (a test of the statement on one literal) -/
 example : joinWith (lit "\n\n") (DocSpec.texts flagForm
@@ -404,8 +561,9 @@ example : joinWith (lit "\n\n") (DocSpec.texts flagForm
         tables := [{ name := lit "a", cols := [{ name := lit "id", type := lit "int", pk := true }] },
                    { name := lit "b", cols := [{ name := lit "a id", type := lit "int", dflt := lit "1" }], comment := some (lit "child") }],
         refs := [{ kind := .manyToOne, t1 := 1, c1 := 0, t2 := 0, c2 := 0 }],
+        groups := [(lit "g1", [1, 0])],
         sticky := [{ name := lit "todo", text := lit "check" }] })
-    = lit "Enum \"status\" {\n    \"new\"\n    \"done\"\n}\n\nTable \"a\" {\n    \"id\" int [pk]\n}\n\n// child\nTable \"b\" {\n    \"a id\" int [default: 1]\n}\n\nRef {\n    \"b\".\"a id\" > \"a\".\"id\"\n}\n\nNote todo {\n    'check'\n}" := by
+    = lit "Enum \"status\" {\n    \"new\"\n    \"done\"\n}\n\nTable \"a\" {\n    \"id\" int [pk]\n}\n\n// child\nTable \"b\" {\n    \"a id\" int [default: 1]\n}\n\nRef {\n    \"b\".\"a id\" > \"a\".\"id\"\n}\n\nTableGroup \"g1\" {\n    \"b\"\n    \"a\"\n}\n\nNote todo {\n    'check'\n}" := by
   decide +kernel
 
 end C02
